@@ -414,6 +414,12 @@ func checkC02() int {
 		if i%2 == 0 {
 			return nil
 		}
+		if i%6 == 5 {
+			// parked servers holding the whole context (often padded to 9..14 channels) that are
+			// split, half-dropped or dropped; bodies that cut and then hand everything to a call
+			o := gen.Opt{MaxSplit: 4, Pol: 2, Alias: 30, ExplicitSelf: 15, ExplicitProv: 10, Exec: 10, Print: 10, TopMax: 3, Fuel: 3, MultiProv: 40, Drop: 20, Split: 20, Tail: 35, Capture: 35, Wide: 50, MainMode: []vast.Mode{vast.Rep, vast.Rep, vast.Aff}[i%3]}
+			return &o
+		}
 		// drop / split heavy
 		o := gen.Opt{MaxSplit: 4, Pol: 2, Alias: 30, ExplicitSelf: 10, ExplicitProv: 10, Exec: 10, Print: 8, TopMax: 3, Fuel: 3, MultiProv: 35, Drop: 35, Split: 25, Mixed: i%6 == 1, MainMode: []vast.Mode{vast.Rep, vast.Aff, vast.Rep, vast.Lin}[i%4]}
 		return &o
@@ -697,6 +703,12 @@ func checkC04() int {
 	nProg := c.pick(450, 2500)
 	nCfg := c.pick(6, 12)
 	cases := genCases(c, nProg, 4, func(i int) *gen.Opt {
+		if i%9 == 4 {
+			// servers capturing a context padded to 9..14 channels, split and used twice (or
+			// half-dropped): duplication of processes with many free names
+			o := gen.Opt{MaxSplit: 3, Pol: 2, Alias: 30, ExplicitSelf: 10, ExplicitProv: 10, Exec: 10, Print: 25, TopMax: 3, Fuel: 2, MultiProv: 50, Drop: 10, Split: 15, Capture: 45, Wide: 60, MainMode: []vast.Mode{vast.Rep, vast.Mul, vast.Rep}[i%3]}
+			return &o
+		}
 		if i%3 != 0 {
 			return nil
 		}
